@@ -2,6 +2,7 @@ import Model.Parse
 import Proofs.Parse
 import Proofs.NameText
 import Proofs.NameWire
+import Props.C02
 /-!
 # C04 — untrusted wire or text input only ever raises the library's own errors
 
@@ -153,6 +154,18 @@ theorem read_cont_clean_iff_strict (w : Bytes) (it qo : Bool) (c : List Nat) :
               · rename_i htr
                 simp only [htr, if_false]
                 exact h
+
+/-- "every value returned can be rendered to … wire again": for every regular entry of the record-type
+table (the 64 schema-described implemented types; `Model.RdataTable`, tied to the code by the C02
+correspondence check), whatever octets are offered as RDATA, with or without an origin — if the decoder
+returns a value, that value encodes, and its encoding decodes to the same value and re-encodes to itself.
+(Corollary of `C02.regular_types_fixpoint`, restated here because it is the wire-side "parsed renders" clause
+of this property.) -/
+theorem rdata_parsed_rerenders : ∀ e ∈ table, e.custom = none → ∀ (o : Option Name) (pfx rdata : Bytes) (v : Val),
+    OctetsOkB rdata → NameSound o → e.decode o pfx rdata = .ok v →
+    ∀ pfx', e.decode o pfx' (e.encode o v) = .ok v ∧
+      (∀ v', e.decode o pfx' (e.encode o v) = .ok v' → e.encode o v' = e.encode o v) :=
+  C02.regular_types_fixpoint
 
 /-- non-vacuity: a 12-octet header with all counts zero is read cleanly in both modes -/
 example : readMsg [0,1,0,0,0,0,0,0,0,0,0,0] { cont := true, ignoreTrailing := false, questionOnly := false }
